@@ -53,6 +53,61 @@ pub fn nt(sh: &mut vmon_core::Shard, h: u64) {
     }
 }
 
+/// RFC 3339 text of the instant `ms` (milliseconds since the Unix epoch) as seen at UTC offset
+/// `off_min` minutes, rendered without any date library (civil-from-days algorithm). `frac`
+/// selects the number of fractional digits written (0 only if the milliseconds are zero).
+pub fn rfc3339_with_offset(ms: u64, off_min: i32, frac_digits: usize, zulu: bool) -> String {
+    let local = ms as i128 + off_min as i128 * 60_000;
+    let (days, rem) = (local.div_euclid(86_400_000), local.rem_euclid(86_400_000));
+    // days since 1970-01-01 -> (y, m, d)
+    let z = days + 719_468;
+    let era = z.div_euclid(146_097);
+    let doe = z.rem_euclid(146_097);
+    let yoe = (doe - doe / 1460 + doe / 36_524 - doe / 146_096) / 365;
+    let doy = doe - (365 * yoe + yoe / 4 - yoe / 100);
+    let mp = (5 * doy + 2) / 153;
+    let d = doy - (153 * mp + 2) / 5 + 1;
+    let m = if mp < 10 { mp + 3 } else { mp - 9 };
+    let y = yoe + era * 400 + if m <= 2 { 1 } else { 0 };
+    let (h, mi, se, msec) = (rem / 3_600_000, rem / 60_000 % 60, rem / 1000 % 60, rem % 1000);
+    let frac = match frac_digits {
+        0 => String::new(),
+        1 => format!(".{}", msec / 100),
+        2 => format!(".{:02}", msec / 10),
+        3 => format!(".{:03}", msec),
+        n => format!(".{:03}{}", msec, "0".repeat(n - 3)),
+    };
+    let off = if zulu && off_min == 0 { "Z".to_string() } else { format!("{}{:02}:{:02}", if off_min < 0 { '-' } else { '+' }, off_min.abs() / 60, off_min.abs() % 60) };
+    format!("{:04}-{:02}-{:02}T{:02}:{:02}:{:02}{}{}", y, m, d, h, mi, se, frac, off)
+}
+
+/// an instant (ms, within years 1971..9998), a UTC offset in minutes and a text form of it
+pub fn gen_offset_timestamp(r: &mut Rng) -> (u64, i32, String) {
+    let ms = match r.below(4) {
+        0 => r.range(40_000_000_000, 4_102_444_800_000),
+        _ => r.range(40_000_000_000, 253_300_000_000_000),
+    };
+    let off_min: i32 = match r.below(8) {
+        0 => 0,
+        1 => 120,
+        2 => -330,
+        3 => 14 * 60,
+        4 => -12 * 60,
+        5 => 1,
+        _ => r.range(0, 28 * 60) as i32 - 14 * 60,
+    };
+    // keep the precision that the written digits can carry
+    let (ms, digits) = match r.below(5) {
+        0 => (ms / 1000 * 1000, 0),
+        1 => (ms / 100 * 100, 1),
+        2 => (ms / 10 * 10, 2),
+        3 => (ms, 6),
+        _ => (ms, 3),
+    };
+    let zulu = r.chance(1, 2);
+    (ms, off_min, rfc3339_with_offset(ms, off_min, digits, zulu))
+}
+
 pub fn hex_sig(b: &[u8]) -> String {
     if b.len() <= 2048 {
         vmon_core::hex(b)
